@@ -35,6 +35,12 @@ func (w *World) execCopyTo(op *Op) bool {
 		}
 	}
 	var res *g.Store
+	// CopyTo evicts items of its *source* on the way (EvictSomeItems, which has no
+	// error result).  A file failure inside that best-effort step cannot be reported
+	// by the API's shape, exactly as for a direct EvictSomeItems call; CopyTo is then
+	// held to the rest of the contract: the copy it returns (and the destination
+	// file) must be complete and correct, which everything below verifies.
+	w.lenient = true
 	ok := w.call("CopyTo", true, func() error {
 		var err error
 		if dst == nil {
@@ -44,7 +50,14 @@ func (w *World) execCopyTo(op *Op) bool {
 		}
 		return err
 	})
-	if !ok {
+	w.lenient = false
+	if w.absorbed {
+		w.absorbed = false
+		w.ev["copyto_fault_absorbed"]++
+		if res == nil {
+			w.failf("copyto-nil", "CopyTo returned a nil store without error although a file call failed")
+		}
+	} else if !ok {
 		if res != nil {
 			w.failf("copyto-error-with-store", "CopyTo returned both a store and an error")
 		}
